@@ -7,6 +7,7 @@ import (
 	"strings"
 
 	"github.com/Fantom-foundation/lachesis-base/abft"
+	"github.com/Fantom-foundation/lachesis-base/abft/election"
 	"github.com/Fantom-foundation/lachesis-base/hash"
 	"github.com/Fantom-foundation/lachesis-base/inter/dag"
 	"github.com/Fantom-foundation/lachesis-base/inter/idx"
@@ -104,11 +105,31 @@ func c33RunRaw(in []string) (obs []string) {
 	if err := orderer.Bootstrap(abft.OrdererCallbacks{}); err != nil {
 		panic(err)
 	}
+	// every slice GetFrameRoots returned, with a private copy: a later AddRoot appends to the cached
+	// slice (store_roots.go: rr = append(rr, r)), possibly into the same backing array; what a caller
+	// already holds must not change
+	type held struct {
+		got, copy []election.RootAndSlot
+		f        uint64
+	}
+	var holds []held
+	checkHeld := func() {
+		for _, h := range holds {
+			for i := range h.copy {
+				if h.got[i] != h.copy[i] {
+					vu.Stat("returned_slice_changed")
+					obs = append(obs, ";", "ALIASED", strconv.FormatUint(h.f, 10))
+					return
+				}
+			}
+		}
+	}
 	for _, o := range groups[1:] {
 		if len(o) == 0 {
 			continue
 		}
 		vu.Stat("op_" + o[0])
+		checkHeld()
 		switch o[0] {
 		case "A":
 			spf, _ := strconv.ParseUint(o[1], 10, 32)
@@ -127,6 +148,7 @@ func c33RunRaw(in []string) (obs []string) {
 		case "G":
 			f, _ := strconv.ParseUint(o[1], 10, 32)
 			rr := store.GetFrameRoots(idx.Frame(f))
+			holds = append(holds, held{got: rr, copy: append([]election.RootAndSlot{}, rr...), f: f})
 			var toks []string
 			for _, r := range rr {
 				toks = append(toks, fmt.Sprintf("%d:%d:%x", uint32(r.Slot.Frame), uint32(r.Slot.Validator), r.ID.Bytes()))
@@ -171,6 +193,7 @@ func c33RunRaw(in []string) (obs []string) {
 			panic("bad op " + o[0])
 		}
 	}
+	checkHeld()
 	return obs
 }
 
